@@ -27,6 +27,10 @@ def chains(tier):
             for gap in (None, "30min", "90min", "1h"):
                 for onstart in (False, True):
                     yield {"kind": "ms", "L": L, "m": m, "gap": gap, "onstart": onstart}
+                # a milestone behind a DATED container: the bound is the container's real span (roll-up of its children),
+                # not the dates typed on the container
+                for dated in ("end-late", "start-early", "both"):
+                    yield {"kind": "msc", "L": L, "m": m, "gap": gap, "onstart": onstart, "dated": dated}
                 # backward mirror: the milestone sits before a successor that starts mid-slot
                 yield {"kind": "msb", "L": L, "m": m, "gap": gap}
 
@@ -54,6 +58,20 @@ def to_spec(it):
                           {"id": "a", "effort": it["m"], "alloc": ["r1"], "deps": ["w"]},
                           {"id": "m", "milestone": True, "deps": [d]},
                           {"id": "after", "effort": 30, "alloc": ["r1"], "deps": ["m"]}]}
+    if k == "msc":
+        L = it["L"]
+        d = {"ref": "g"}
+        if it["gap"]:
+            d["gap"] = it["gap"]
+        if it["onstart"]:
+            d["onstart"] = True
+        g = {"id": "g", "children": [{"id": "w", "effort": 120, "alloc": ["r1"], "start": "2025-01-07-10:00"}, {"id": "a", "effort": it["m"], "alloc": ["r1"], "deps": ["!w"]}]}
+        if it["dated"] in ("end-late", "both"):
+            g["end"] = "2025-01-10-17:00"
+        if it["dated"] in ("start-early", "both"):
+            g["start"] = "2025-01-06-09:00"
+        return {"res_min": L if L != 60 else None, "resources": [{"id": "r1"}, {"id": "r2"}],
+                "tasks": [g, {"id": "m", "milestone": True, "deps": [d]}, {"id": "after", "effort": 30, "alloc": ["r2"], "deps": ["m"]}]}
     if k == "msb":
         L = it["L"]
         d = {"ref": "m"}
